@@ -494,3 +494,23 @@ Proof.
   - right. split; [reflexivity|apply A].
   - left. exists e. now split.
 Qed.
+
+(* ---- a lookup of a put's target that ends while the put is in its store phase is no business of the put: the put
+   stays where it is and nobody parked on it is told anything, whatever the lookup found (tokens or none) ---- *)
+Lemma filter_all_true {A} (f : A -> bool) l : (forall x, In x l -> f x = true) -> filter f l = l.
+Proof.
+  induction l as [|x l IH]; intros H; [reflexivity|]. cbn [filter]. rewrite (H x (or_introl eq_refl)).
+  f_equal. apply IH. intros y Hy. apply H. now right.
+Qed.
+
+Theorem started_put_ignores_a_finished_lookup s t ok p :
+  find_put t (puts s) = Some p -> pe_started p = true ->
+  let r := step_tick s [] [(t, ok)] in
+  puts (fst r) = puts s /\ psend (fst r) = psend s /\ forall c o, ~ In (OPut c o) (snd r).
+Proof.
+  intros Hf Hs. unfold step_tick. cbn [start_puts]. rewrite Hf, Hs. cbn [app map fst release_puts].
+  cbn [fst snd]. repeat split.
+  - apply filter_all_true. intros x _. reflexivity.
+  - intros c o Hin. unfold release_gets in Hin. cbn [snd] in Hin. apply in_app_or in Hin as [Hin|[]].
+    apply in_map_iff in Hin as (e & He & _). discriminate He.
+Qed.
